@@ -382,7 +382,9 @@ func finalLabels(k *Case, r *RunObs, consumers bool) ([]string, bool) {
 		if consumers {
 			t = b.ExtractC
 		}
-		lab := lookupTable(t, rec.URL)
+		// the tables are keyed by the URL the tree was asked about: key fields enter
+		// the pipeline with ill-formed bytes replaced (fix-F-C15e)
+		lab := lookupTable(t, strings.ToValidUTF8(rec.URL, "\uFFFD"))
 		for j := bi + 1; j < len(r.Batches); j++ {
 			bj := r.Batches[j]
 			if !bj.OracleOK {
@@ -450,6 +452,17 @@ func invariance(k *Case, base, r *RunObs, add func(sig, dem, obs string)) bool {
 	if !okI {
 		add("batch-dependence:interceptors", dem, obs)
 		return false
+	}
+	// a flush that grouped its own records before the tree had been given the whole batch
+	// and filed some under keys the tree no longer gives when the flush ends (settle.go):
+	// no aggregate of an earlier flush is involved, this is not the re-keying of F-C15
+	for _, x := range []*RunObs{base, r} {
+		if i, b := unsettledFlush(x); b != nil {
+			add(sigUnsettled, dem, fmt.Sprintf("%s; flush %d of the run with %s (aggregation empty before: %v, %d records, %d inserted into "+
+				"the tree before grouping) filed its own records under keys the tree no longer gives when the flush ends: %v",
+				obs, i+1, describeRun(x), b.StateEmpty, b.Accepted, b.PreInserts, b.Unsettled))
+			return false
+		}
 	}
 	if ambiguous(r) || ambiguous(base) {
 		// within one flush the tree answered one URL in two ways: the normaliser is
